@@ -95,7 +95,7 @@ def generate(rng, tier):
                 steps[pos:pos] = [st]
             else:
                 tgt = rng.choice(steps)
-                if tgt['form'] not in ('comment', 'directive', 'tq', 'tqprint') and not tgt.get('want'):
+                if tgt['form'] not in ('comment', 'directive', 'tq', 'tqprint', 'bgtask') and not tgt.get('want'):
                     tgt['inline'] = [['+', 'REQUIRES', rng.choice(['badflag:X', 'notaplatform'])]]
                 else:
                     st = {'i': base, 'form': 'directive', 'pts': [], 'ps2': False, 'sep': 'none',
@@ -117,7 +117,7 @@ def generate(rng, tier):
             else:
                 # a want that is switched off must not switch off the exception with it
                 iw_pid = st['pts'][0]
-                if rng.random() < 0.5 and st['form'] not in ('tq', 'tqprint'):
+                if rng.random() < 0.5 and st['form'] not in ('tq', 'tqprint', 'bgtask'):
                     st['inline'] = [['+', 'IGNORE_WANT', None]]
                     st['inline_at'] = rng.choice(['first', 'last'])
                 else:
@@ -285,7 +285,11 @@ def check(rec):
         if async_fault:
             fired = [f for f in e['fired'] if f[0].startswith('trace:')] or \
                     [f for f in rec['fired'] if f[0].startswith('stream:')]
-            if fired and e['how'] == 'returned' and v != 'failed':
+            spec_steps = expect.spec_index(scn['world'])[e['dtid']][0]['steps']
+            awaits = any(st['form'] in W.ASYNC_FORMS for st in spec_steps)
+            # (in a doctest that awaits, the fault may land in a task other than the
+            # awaiting one, where asyncio legitimately parks it: only C12 is asserted there)
+            if fired and e['how'] == 'returned' and v != 'failed' and not awaits:
                 out.append(common.viol('C09.R2', '%s: %s fired while a statement ran but the summary says %s' % (lab, fired[0][0], v),
                                        dtid=e['dtid'], k=e['k']))
         else:
